@@ -652,6 +652,9 @@ func linesRandLine(rnd *rand.Rand, option bool, cond int) []linesItem {
 	if rnd.Intn(4) == 0 {
 		n = 1 + rnd.Intn(3)
 	}
+	if rnd.Intn(40) == 0 {
+		n = 200 + rnd.Intn(300) // a line of hundreds of characters with dozens of inline expressions
+	}
 	for i := 0; i < n; i++ {
 		it := linesRandTextItem(rnd)
 		if i == 0 && !option && it.C == "sp" { // indentation belongs to another layer
